@@ -99,6 +99,7 @@ Theorem C05_select_root :
               (k * (zl * zl) - 2 * Rc * zl + 0 * 0 + y * y + zl * zl))) /
           (2 * (k * (N * N) + 0 * 0 + M * M + N * N)))%R in
        (0 <= tv)%R ->
+       (0 <= (Rc - (1 + k) * (zl + tv * N)) * Rc)%R ->
        (Rabs (zl + tv * N) < Rabs (zl + to * N))%R ->
        k_std_distance XOps (Fin k) (Fin N) (Fin 0) (Fin M) (Fin zl) (Fin 0) (Fin y) (Fin Rc) =
        Fin tv.
